@@ -18,7 +18,7 @@ fn position(what: &str) {
     }
 }
 
-fn build_config(n: &BuildNode) -> BuildConfig {
+fn build_config(n: &BuildNode, root: usize) -> BuildConfig {
     let c = &n.cfg;
     let app = if c.app_dir_relative {
         std::path::PathBuf::from("fixtures/app")
@@ -67,6 +67,8 @@ fn build_config(n: &BuildNode) -> BuildConfig {
     if c.pack_fails {
         cfg.env("VERIF_PACK_FAILS", "1");
     }
+    // tells the builds of one independent `TestRunner::build` apart in the recorded history
+    cfg.env(simcore::e4::ROOT_MARKER, root.to_string());
     if let Some(content) = c.preprocessor.clone() {
         let edit = c.preprocessor_edit;
         cfg.app_dir_preprocessor(move |dir| {
@@ -111,8 +113,9 @@ fn container_config(cfg: &simcore::e4::scenario::ContainerCfg) -> ContainerConfi
     for p in &cfg.ports {
         cc.expose_port(*p);
     }
+    let mnt = std::path::PathBuf::from(std::env::var_os("VERIF_MNT").unwrap_or_default());
     for (s, t) in &cfg.mounts {
-        cc.bind_mount(s.clone(), t.clone());
+        cc.bind_mount(simcore::e4::scenario::resolve_mount_source(s, &mnt), t.clone());
     }
     cc
 }
@@ -141,7 +144,7 @@ fn start(context: &TestContext, cfg: &simcore::e4::scenario::ContainerCfg, steps
     });
 }
 
-fn run_steps(ctx: TestContext, n: &BuildNode) {
+fn run_steps(ctx: TestContext, n: &BuildNode, root: usize) {
     let mut ctx = Some(ctx);
     for step in &n.steps {
         position("build step");
@@ -157,8 +160,8 @@ fn run_steps(ctx: TestContext, n: &BuildNode) {
                 ctx.as_ref().expect("context").download_sbom_files(|_files| {});
             }
             Step::Rebuild(next) => {
-                let cfg = build_config(next);
-                ctx.take().expect("context").rebuild(cfg, |ctx2| run_steps(ctx2, next));
+                let cfg = build_config(next, root);
+                ctx.take().expect("context").rebuild(cfg, |ctx2| run_steps(ctx2, next, root));
             }
         }
     }
@@ -173,26 +176,27 @@ fn main() {
         PANIC_AT.store(p, Ordering::SeqCst);
     }
     let seed = s.fastrand_seed;
-    // like a test harness: the scenario runs on its own thread, a panic unwinds that thread
-    let handle = std::thread::Builder::new()
-        .name("scenario".into())
-        .spawn(move || {
-            // fastrand's generator is thread-local: seed it on the scenario thread
-            fastrand::seed(seed);
-            let runner = TestRunner::default();
-            let cfg = build_config(&s.root);
-            runner.build(cfg, |ctx| run_steps(ctx, &s.root));
-            // further independent builds of the same test process
-            for root in &s.more_roots {
-                let cfg = build_config(root);
-                runner.build(cfg, |ctx| run_steps(ctx, root));
-            }
-        })
-        .expect("spawn scenario thread");
-    let code = match handle.join() {
-        Ok(()) => 0,
-        Err(_) => 101,
-    };
+    // Like `cargo test`: every independent build is its own test function on its own thread
+    // (one after the other); a panic unwinds that thread only, the process goes on with the next.
+    let s = std::sync::Arc::new(s);
+    let mut code = 0;
+    for root in 0..=s.more_roots.len() {
+        let s = s.clone();
+        let handle = std::thread::Builder::new()
+            .name(format!("scenario-{root}"))
+            .spawn(move || {
+                // fastrand's generator is thread-local: seed it on the scenario thread
+                fastrand::seed(seed.wrapping_add(root as u64));
+                let runner = TestRunner::default();
+                let node = if root == 0 { &s.root } else { &s.more_roots[root - 1] };
+                let cfg = build_config(node, root);
+                runner.build(cfg, |ctx| run_steps(ctx, node, root));
+            })
+            .expect("spawn scenario thread");
+        if handle.join().is_err() {
+            code = 101;
+        }
+    }
     println!("positions={}", POSITION.load(Ordering::SeqCst));
     std::process::exit(code);
 }
